@@ -59,28 +59,11 @@ impl<T: ObjectType> ContainerType for QueryRoot<T> {
                 )
                 .await
                 .map(Some);
-            }
-        }
-
-        if ctx.schema_env.registry.introspection_mode == IntrospectionMode::IntrospectionOnly
-            || ctx.query_env.introspection_mode == IntrospectionMode::IntrospectionOnly
-        {
-            return Ok(None);
-        }
-
-        if ctx.schema_env.registry.enable_federation || ctx.schema_env.registry.has_entities() {
-            if ctx.item.node.name.node == "_entities" {
-                let (_, representations) = ctx.param_value::<Vec<Any>>("representations", None)?;
-                let res = futures_util::future::try_join_all(representations.iter().map(
-                    |item| async move {
-                        self.inner.find_entity(ctx, &item.0).await?.ok_or_else(|| {
-                            ServerError::new("Entity not found.", Some(ctx.item.pos))
-                        })
-                    },
-                ))
-                .await?;
-                return Ok(Some(Value::List(res)));
-            } else if ctx.item.node.name.node == "_service" {
+            } else if ctx.item.node.name.node == "_service"
+                && (ctx.schema_env.registry.enable_federation
+                    || ctx.schema_env.registry.has_entities())
+            {
+                // the service description is schema metadata: it obeys the introspection gate
                 let mut ctx_obj = ctx.with_selection_set(&ctx.item.node.selection_set);
                 ctx_obj.is_for_introspection = true;
                 return OutputType::resolve(
@@ -97,6 +80,28 @@ impl<T: ObjectType> ContainerType for QueryRoot<T> {
                 .await
                 .map(Some);
             }
+        }
+
+        if ctx.schema_env.registry.introspection_mode == IntrospectionMode::IntrospectionOnly
+            || ctx.query_env.introspection_mode == IntrospectionMode::IntrospectionOnly
+        {
+            return Ok(None);
+        }
+
+        if (ctx.schema_env.registry.enable_federation || ctx.schema_env.registry.has_entities())
+            && ctx.item.node.name.node == "_entities"
+        {
+            let (_, representations) = ctx.param_value::<Vec<Any>>("representations", None)?;
+            let res = futures_util::future::try_join_all(representations.iter().map(
+                |item| async move {
+                    self.inner
+                        .find_entity(ctx, &item.0)
+                        .await?
+                        .ok_or_else(|| ServerError::new("Entity not found.", Some(ctx.item.pos)))
+                },
+            ))
+            .await?;
+            return Ok(Some(Value::List(res)));
         }
 
         self.inner.resolve_field(ctx).await
